@@ -76,4 +76,42 @@ StepOK(nd, dag, asserted) ==
 ProofOK(dag, root, ql, qr, asserted) ==
   /\ \A i \in DOMAIN dag : dag[i].id = i /\ StepOK(dag[i], dag, asserted)
   /\ MatchEqInj(dag[root].l, dag[root].r, ql, qr)
+
+(***************************************************************************)
+(* Flat explanations (to_flat_string): a chain of WHOLE terms               *)
+(*   start = t0, t1, .., tn                                                 *)
+(* in which step i rewrites the subterm at position pos (child indices from  *)
+(* the root) with the asserted equation `just`, forwards or backwards.      *)
+(* Consecutive terms are concrete terms: outside the rewritten position     *)
+(* they agree (siblings up to alpha), at the position the pair of subterms  *)
+(* is an instance of the asserted equation under a renaming injective per   *)
+(* side.  Binders on the way down are opened with common names per level,   *)
+(* so names bound above the position are compared as the same name.         *)
+(***************************************************************************)
+RenBdL(c, lvl) ==
+  LET m == [x \in Names(c.t) \cup Range(c.bd) |->
+              IF x \in Range(c.bd) THEN 500000 + 100 * lvl + LastPos(c.bd, x) ELSE x]
+  IN Ren(c.t, m)
+ChKey(c) == Canon([op |-> "_", sl |-> << >>, ch |-> <<c>>])
+
+RECURSIVE StepAt(_, _, _, _, _, _)
+StepAt(cur, dst, p, a, b, lvl) ==
+  IF p = << >> THEN MatchEq(a, b, cur, dst)
+  ELSE LET k == Head(p) IN
+       /\ cur.op = dst.op /\ cur.sl = dst.sl /\ Len(cur.ch) = Len(dst.ch)
+       /\ k \in DOMAIN cur.ch
+       /\ \A j \in DOMAIN cur.ch : j # k => ChKey(cur.ch[j]) = ChKey(dst.ch[j])
+       /\ Len(cur.ch[k].bd) = Len(dst.ch[k].bd)
+       /\ StepAt(RenBdL(cur.ch[k], lvl), RenBdL(dst.ch[k], lvl), Tail(p), a, b, lvl + 1)
+
+FlatTerms(fl) == <<fl.start>> \o [i \in DOMAIN fl.steps |-> fl.steps[i].dst]
+FlatStepOK(fl, i, asserted) ==
+  LET ts == FlatTerms(fl) st == fl.steps[i] IN
+  \E k \in DOMAIN asserted :
+     /\ asserted[k].j = st.just
+     /\ IF st.back THEN StepAt(ts[i], ts[i + 1], st.pos, asserted[k].b, asserted[k].a, 0)
+                   ELSE StepAt(ts[i], ts[i + 1], st.pos, asserted[k].a, asserted[k].b, 0)
+FlatBadSteps(fl, asserted) == {i \in DOMAIN fl.steps : ~FlatStepOK(fl, i, asserted)}
+FlatConcludes(fl, ql, qr) ==
+  LET ts == FlatTerms(fl) IN MatchEq(ts[1], ts[Len(ts)], ql, qr)
 =============================================================================
